@@ -579,6 +579,41 @@ def reader_history(ctx, rng):
                        options["max_prefix_table_size"], options["max_datatype_table_size"]], "mode": "reader",
                        "bytes": pr.data.hex(),
                        "summary": f"stream with {later_options} later frames opening with a repeated options row: " + w["summary"]})
+    if w is None:
+        # a second stream with EXACTLY the same stream options but other content, read at the same time (two generators
+        # advanced alternately): each reader's tables must mirror its own writer only
+        import io as _io
+        from pyjelly.integrations.generic import parse as gparse
+        from .. import terms as T
+        _p2, events2, _o2, policy2, _d2 = c04.make_case(rng, "rdf11", 25)
+        try:
+            pr2 = refenc.produce(rng, [e for e in events2 if e[0] == "stmt" and len(e[1]) == (3 if phys == 1 else 4)] or events[:1],
+                                 options, dataclasses.replace(policy2, p_options_repeat=0.0), True)
+        except (refenc.ProducerError, refenc.InternalProducerError):
+            pr2 = None
+        if pr2 is not None:
+            its = [gparse.parse_jelly_flat(_io.BytesIO(pr.data)), gparse.parse_jelly_flat(_io.BytesIO(pr2.data))]
+            got = [[], []]
+            live = [True, True]
+            err = None
+            try:
+                while any(live):
+                    for k in (0, 1):
+                        if live[k]:
+                            x = next(its[k], None)
+                            if x is None:
+                                live[k] = False
+                            else:
+                                got[k].append(T.norm_event(T.event_from_generic(x)))
+            except Exception as e:  # noqa: BLE001
+                err = f"{type(e).__name__}: {e}"
+            ctx.observe("reader-histories-in-lockstep-with-equal-options")
+            want = [T.norm_events(pr.events), T.norm_events(pr2.events)]
+            if err or got != want:
+                ctx.violation({"clause": "reader-history:lockstep-differs", "kind": "walk", "mode": "reader-lockstep",
+                               "sizes": [options["max_name_table_size"], options["max_prefix_table_size"], options["max_datatype_table_size"]],
+                               "summary": "two streams with identical options read alternately (generic parse_jelly_flat): "
+                                          + (err or "a reader resolved ids to strings of the other stream")})
     ctx.case(("reader", gen.case_hash(pr.data)), later_options > 0,
              sample={"kind": "reader-history", "frames": len(frames), "later_frames_opening_with_options": later_options})
 
